@@ -215,15 +215,15 @@ Proof.
       split; [| split].
       * eapply (acks_at_commit st st' id l1 (set_a_committed l1 (a_committed l1 ++ [APubRel pkid])));
           [exact G1 | | reflexivity]. unfold keep in *; rsimpl. congruence.
-      * cbn [registered]. rewrite Go. destruct (o_inflight o) as [| h r]; destruct ER as [_ ER]; [discriminate |].
-        now rewrite <- ER.
+      * cbn [registered]. rewrite Go. destruct (o_inflight o) as [| h r]; [destruct ER as [_ ER]; discriminate |].
+        destruct (pkid =? pkid_of h); [reflexivity | destruct ER as [_ ER]; discriminate].
       * intros l0 l' G0 G'. inversion G0; subst l0.
         assert (E : r_acks st' = slab_put (r_acks st) id (set_a_committed l1 (a_committed l1 ++ [APubRel pkid])))
           by (unfold keep in *; rsimpl; congruence).
         rewrite E, (slab_get_put_occ _ _ _ _ G1) in G'. inversion G'. reflexivity.
     + inv_ok. exists []. split; [now apply acks_at_eq |]. split.
-      * cbn [registered]. rewrite Go. destruct (o_inflight o) as [| h r]; destruct ER as [_ ER]; [reflexivity |].
-        now rewrite <- ER.
+      * cbn [registered]. rewrite Go. destruct (o_inflight o) as [| h r]; [reflexivity |].
+        destruct (pkid =? pkid_of h); [destruct ER as [_ ER]; discriminate | reflexivity].
       * intros l0 l' G0 G'. rsimpl. rewrite G0 in G'. now inversion G'.
   - (* PUBREL *)
     unfold get_acks in H. destruct (slab_get (r_acks st) id) as [l |] eqn:G; [| discriminate]. cbn [bind] in H.
